@@ -354,6 +354,10 @@ VCLAUSE(containment_and_constants, 60, 2500, 50000, "the region is offset from t
 	Recorded r;
 	VMUST_RETURN("Integrate_MC", r = run_call(k));
 	VCHECK(r.calls > 0, "integrand never evaluated");
+	// the call budget is honoured: plain Monte Carlo and Miser spend it once, Vegas once per iteration (five)
+	VCHECK(r.calls >= k.ncalls / 2 && r.calls <= 5L * k.ncalls + 16, kMC[k.method] << " evaluated the integrand " << r.calls << " times for a budget of " << k.ncalls);
+	if(k.method != 1)
+		c.cls(r.calls == k.ncalls ? "budget_spent_exactly" : "budget_not_spent_exactly");
 	VCHECK(r.outside == 0, r.outside << " of " << r.calls << " sample points outside the region, first: " << show(r.first_outside) << " region " << show(k.region, 12));
 	if(k.family == 0)
 	{
@@ -389,6 +393,9 @@ VCLAUSE(unbiasedness, 9000, 160, 3200, "the batch uses an adaptive method (Vegas
 	c.cls(kMC[method]);
 	double zsum = 0, z2 = 0;
 	int used = 0;
+	// the calls of a batch must be independent whatever the choice sequence looks like (a shrunk or fuzzed sequence repeats its words, and 200
+	// identical calls are one call counted 200 times): the seeds are distinct by construction
+	uint64_t base = s.below(4294967296ULL);
 	for(int i = 0; i < n; i++)
 	{
 		Call k;
@@ -396,7 +403,10 @@ VCLAUSE(unbiasedness, 9000, 160, 3200, "the batch uses an adaptive method (Vegas
 		gen_region(s, k.d, k.region);
 		k.ncalls = (int) s.range(1000, 4000);
 		k.method = method;
-		k.seed	 = (unsigned) s.below(4294967296ULL);
+		uint64_t z0 = (base + 0x9e3779b97f4a7c15ULL * (uint64_t) (i + 1));
+		z0 = (z0 ^ (z0 >> 30)) * 0xbf58476d1ce4e5b9ULL;
+		z0 = (z0 ^ (z0 >> 27)) * 0x94d049bb133111ebULL;
+		k.seed = (unsigned) ((z0 ^ (z0 >> 31)) & 0xffffffffULL);
 		gen_family(s, k, true);
 		long double m1, m2;
 		moments(k, m1, m2);
@@ -519,6 +529,8 @@ VCLAUSE(front_ends, 40, 1500, 30000, "the per-axis limits are pairwise different
 		VMUST_RETURN("Integrate_2D (Monte Carlo)", v = libphysica::Integrate_2D(f2, lo[0], hi[0], lo[1], hi[1], kMC[mi], ncalls));
 	}
 	VCHECK(bad == 0, bad << " of " << calls << " evaluations passed an argument outside the limits of its own axis: argument " << (int) badk << " received " << badx);
+	// the budget given as method_parameter reaches the integrator (a front end that drops it would use the default of 30000)
+	VCHECK(calls >= ncalls / 2 && calls <= 5L * ncalls + 16, kMC[mi] << " front end evaluated the integrand " << calls << " times for a budget of " << ncalls);
 	// a constant: exactly cst*volume (Vegas in 3D is the known finding K2, sanity bound only)
 	bool k2	   = (mi == 1 && vegas_strata_misaligned(ncalls, nd) && finding_open("K2"));
 	double rel = mi == 0 ? 4.0 * ncalls * EPS : (mi == 2 ? 256 * EPS : (k2 ? 1e-2 : 1e-11 + 32.0 * ncalls * EPS));
